@@ -6,6 +6,8 @@
 #include <cstddef>
 #include <functional>
 #include <vector>
+#include <boost/graph/properties.hpp>
+#include <boost/property_map/property_map.hpp>
 
 namespace parmcb {
 
@@ -49,6 +51,37 @@ namespace parmcb {
             ev.weight = weight;
             ev.empty_signed_set = empty_signed_set;
             search_hook()(ev);
+        }
+
+        // the candidate list of a tree variant after std::sort, in the order in which the phases scan it
+        struct CandidateEvent {
+            std::size_t tree;    // position of the candidate's tree in the tree vector
+            std::size_t source;  // vertex index of that tree's root
+            std::size_t edge;    // forest index of the candidate's non-tree edge
+            double weight;       // recorded weight
+        };
+
+        inline std::function<void(const std::vector<CandidateEvent>&)>& candidates_hook() {
+            static std::function<void(const std::vector<CandidateEvent>&)> hook;
+            return hook;
+        }
+
+        template<class Graph, class Trees, class Cycles, class ForestIndex>
+        void report_candidates(const Graph &g, const Trees &trees, const Cycles &cycles,
+                const ForestIndex &forest_index) {
+            if (!candidates_hook()) {
+                return;
+            }
+            std::vector<CandidateEvent> evs;
+            for (const auto &c : cycles) {
+                CandidateEvent ev;
+                ev.tree = c.tree();
+                ev.source = get(boost::vertex_index, g, trees.at(c.tree()).source()); // found by ADL at instantiation
+                ev.edge = forest_index(c.edge());
+                ev.weight = c.weight();
+                evs.push_back(ev);
+            }
+            candidates_hook()(evs);
         }
 
     } // verif
